@@ -145,7 +145,8 @@ CFGFMT = dict(sub="cfgfmt", mode="cfgfmt", family="cfgfmt", shards=q(4, 16),
 def c19(prop, tier, res, replay=None):
     return pure.check_cases(prop, tier, res, [CFGFMT], [
         "PROVED (Lean, unbounded): the lexer/quoting layer - quoteString/formatValue output lexes back to exactly one token of the same kind and text for every value the lexer can have produced (with the exact characterisation of the values for which it does not, and the proof that the lexer never produces them), token streams survive joining words by spaces and lines by newlines. Tied to the code by differential runs of the real lexer and quoting helpers against the model",
-        "NOT PROVED, differential only: that the formatter's per-directive tables (format.go, 1 kLoC) print every field the parser's tables (parser.go, 3.6 kLoC) can set. This is decided by running Parse/Format/Parse/Compile on texts and comparing complete compiled configurations and validation results (canonical dump of every field; error/warning lists compared as sets because their order follows Go map iteration) plus idempotence of the second fmt",
+        "PROVED over facts regenerated from internal/config by go/types on every run (Generated/FmtCover.lean, Props/C19Cover.lean): every syntax-tree field parser.go assigns is read by format.go, format.go assigns none, every word of the parser's case clauses occurs in a string literal of format.go (or is a channel-name constant kept as data), and every formatValue/formatRoutePath call passes the value's own ...Quoted flag. These are necessary conditions of the round trip for every directive, exercised or not; they do not show that a field is printed in the right place",
+        "NOT PROVED, differential only: that the formatter's per-directive tables (format.go, 1 kLoC) print every field the parser's tables (parser.go, 3.6 kLoC) can set in a form that parses back to the same value. This is decided by running Parse/Format/Parse/Compile on texts and comparing complete compiled configurations and validation results (canonical dump of every field; error/warning lists compared as sets because their order follows Go map iteration) plus idempotence of the second fmt",
         "inputs of the differential: every string literal in the repository's Go files (tests included) and every fenced block in its docs that the parser accepts, read from /repo at run time (currently ~420 texts covering every documented directive), and token-level mutations of them (re-quoting, special values incl. blank/escapes/placeholders/braces, comments, duplicated tokens, spliced blocks); a directive that appears in no test and no doc is not exercised",
         "positions in lexer error messages are not modelled; input is valid UTF-8 (the lexer rejects invalid UTF-8 at token starts)"], replay)
 
